@@ -129,6 +129,22 @@ def run(tier, replay):
                     line[9], line[10] = str(pos), repr(val)
                     pins.append(" ".join(line))
                 meta[pj] = dict(m, pin=(pos, val))
+    # ---- pass 3: RUNS of pinned deviates: from each (sampled) position on, 24 consecutive deviates at 1-1e-12, or at 1e-12 - a rejection
+    #      loop is refused a dozen times in a row (its ordinate deviate stays at the top, or its abscissa at the edge), then the
+    #      seeded stream takes over: the shot still ends and the event is still well-formed
+    for jid, nd in ndr.items():
+        m = meta[jid]
+        if m["cat"] != "bkg" or "pin" in m:
+            continue
+        if not m.get("plans") and not thorough:
+            continue
+        poss = range(nd) if (thorough and nd <= 40) else rng.sample(range(nd), min(nd, 6 if not thorough else 20))
+        for pos in poss:
+            for val in (1.0 - 1e-12, 1e-12):
+                n += 1
+                pj = "%s.r%d" % (jid, n)
+                pins.append(sch.bjob(pj, m["name"], m["seed"], m["plans"], pin=(pos, val), pin_len=24))
+                meta[pj] = dict(m, pin=(pos, val), run=24)
     res2, crashes2, files2 = run_jobs(exe, pins, wd, "b")
     cls = collections.Counter()
     maxdraws = 0
